@@ -49,7 +49,7 @@ def binary_aperture(rng, shape):
 def oracle_conserve(inp):
     """AS / TF, no aperture, no crop: E_out == E_in"""
     rng = np.random.default_rng(inp['fseed'])
-    u = W.cfield(rng, tuple(inp['shape']), inp.get('kind', 'random'))
+    u = W.typed(W.cfield(rng, tuple(inp['shape']), inp.get('kind', 'random')), inp['api'], inp.get('dtype'))
     out = []
     e0 = W.energy(u)
     if inp['api'] == 'torch':
@@ -60,7 +60,7 @@ def oracle_conserve(inp):
     out.append(('finite', bool(np.isfinite(rn).all()), True, False))
     out.append(('shape_kept', list(rn.shape) == list(inp['shape']), inp['shape'], list(rn.shape)))
     e1 = W.energy(r)
-    ok = abs(e1 - e0) <= TOL[inp['api']] * max(e0, 1e-30) if e0 > 0 else e1 <= 1e-20
+    ok = abs(e1 - e0) <= TOL[W.tol_key(inp)] * max(e0, 1e-30) if e0 > 0 else e1 <= 1e-20
     out.append(('energy_conserved', ok, e0, e1))
     if inp['api'] == 'torch' and len(inp['shape']) == 2:
         # the same kernel object handed to consecutive calls (first through a binary aperture, then without): the second call still
@@ -81,10 +81,10 @@ def oracle_conserve(inp):
 def oracle_never_created(inp):
     """band-limited method and binary Fourier-plane apertures: E_out <= E_in; second pass removes nothing more"""
     rng = np.random.default_rng(inp['fseed'])
-    u = W.cfield(rng, tuple(inp['shape']), inp.get('kind', 'random'))
+    u = W.typed(W.cfield(rng, tuple(inp['shape']), inp.get('kind', 'random')), inp['api'], inp.get('dtype'))
     e0 = W.energy(u)
     out = []
-    tol = TOL[inp['api']]
+    tol = TOL[W.tol_key(inp)]
     if inp['api'] == 'torch':
         ap = 1.
         if inp.get('aperture_seed') is not None:
@@ -140,10 +140,10 @@ def gen_inputs(ctx, ncfg):
                 if api == 'torch' and i % 5 == 0: shp = [2, 3] + shp                     # batched 4-D
                 elif api == 'torch' and i % 5 == 1: shp = [3] + shp                       # batched 3-D
                 if api == 'numpy' and min(shp) < 2: continue                               # numpy grids need >= 2 samples (division by n-1 is fine, but 1xk fields are not supported by np.meshgrid-based code paths identically)
-                out.append(('conserve', {'api': api, 'method': method, 'shape': shp, 'lam': lam, 'dx': dx, 'z': z, 'kind': kind, 'fseed': rng.randrange(10 ** 6)}))
+                out.append(('conserve', {'api': api, 'method': method, 'shape': shp, 'lam': lam, 'dx': dx, 'z': z, 'kind': kind, 'fseed': rng.randrange(10 ** 6), 'dtype': W.DTYPES[api][i % 5]}))
             shp = list(shape)
             if api == 'numpy' and min(shp) < 2: continue
-            out.append(('never_created', {'api': api, 'method': 'Bandlimited Angular Spectrum', 'shape': shp, 'lam': lam, 'dx': dx, 'z': z * (1000 if i % 2 else 1), 'kind': kind, 'fseed': rng.randrange(10 ** 6)}))
+            out.append(('never_created', {'api': api, 'method': 'Bandlimited Angular Spectrum', 'shape': shp, 'lam': lam, 'dx': dx, 'z': z * (1000 if i % 2 else 1), 'kind': kind, 'fseed': rng.randrange(10 ** 6), 'dtype': W.DTYPES[api][(i + 2) % 5]}))
             if api == 'torch':
                 m = ['Angular Spectrum', 'Bandlimited Angular Spectrum', 'Transfer Function Fresnel'][i % 3]
                 out.append(('never_created', {'api': 'torch', 'method': m, 'shape': shp, 'lam': lam, 'dx': dx, 'z': z, 'kind': kind, 'fseed': rng.randrange(10 ** 6), 'aperture_seed': rng.randrange(10 ** 6)}))
